@@ -12,7 +12,11 @@
 (*   shapeok result has the broadcast shape of (x, given); draw_sample: (n,) / (n, len(given)) *)
 (* For draw_sample "same numbers" means the same draw under the same seed.                   *)
 (* The "summary" record makes TLC assert that the executed cases are exactly CondCases        *)
-(* (each executed r.reps times, with different evaluation points / conditioning values).      *)
+(* (each executed r.fullreps times with different evaluation points / conditioning values,     *)
+(* the QuickIntChains kinds r.partreps times more with integer-typed conditioning values).      *)
+(* For chain kind "const" (every dependence callable constant in given) a pdf/cdf/icdf result   *)
+(* of the shape of x stands for every conditioning value (shapeok); samples always have one     *)
+(* column per conditioning value.                                                                *)
 EXTENDS ParamRoutingOps, ParamRoutingMemoOps, Json, IOUtils, TLC
 
 TraceLog == ndJsonDeserialize(IOEnv.TRACE_FILE)
@@ -31,6 +35,10 @@ CondClauses(r) ==
     <<"VectorisedEqualsPointwise", r.vecrel <= CondTolE15>>,
     <<"ChainedSameGiven", r.parrel <= CondTolE15>>,
     <<"FixedSameForAllGiven", r.fixedok>>,
+    (* draw_sample(n, given): n rows with one variate per conditioning value - shape (n,) for a    *)
+    (* scalar, (n, len(given)) for a vector given (part of shapeok) - and no variate repeated, also  *)
+    (* when every parameter value is constant in given (ParamRouting!OneResultPerGiven)              *)
+    <<"SampleRowsIndependent", r.method = "draw_sample" => r.indep>>,
     <<"Compared", r.ncmp >= (IF GivenIsVector(r.shape) \/ XIsVector(r.shape) THEN 4 ELSE 2)>>
   >>
 
@@ -52,7 +60,8 @@ CondSeen == {<<TraceLog[i].fam, TraceLog[i].D, TraceLog[i].chain, TraceLog[i].sh
                TraceLog[i].method>> : i \in Idx("cond")}
 HistSeen == {<<TraceLog[i].depth, TraceLog[i].steps>> : i \in Idx("condhist")}
 SummaryClauses(r) ==
-  << <<"CondCoverage", CondSeen = CondCases /\ Cardinality(Idx("cond")) = r.reps * Cardinality(CondCases)>>,
+  << <<"CondCoverage", CondSeen = CondCases /\ Cardinality(Idx("cond")) = r.fullreps * Cardinality(CondCases)
+                               + r.partreps * Cardinality({cc \in CondCases : cc[3] \in QuickIntChains})>>,
      <<"HistoryCoverage", HistSeen = MemoHistoryCases(4)>> >>
 
 Clauses(r) == CASE r.kind = "cond" -> CondClauses(r)
